@@ -41,13 +41,29 @@ pub fn check_bytes(ctx: &Ctx, bytes: &Vec<u8>) -> Result<(), Fail> {
     let mut d = D::new(bytes);
     let as_enum = d.ratio(1, 3);
     let (body, n, style) = gen_fields(&mut d);
+    // generic parameters: lifetimes first, then type and const parameters in any order (allowed since Rust 1.59)
+    let mut gparams: Vec<String> = vec![];
+    let mut type_names: Vec<String> = vec![];
+    for k in 0..d.below(3) {
+        gparams.push(format!("'l{}", k));
+    }
+    for k in 0..d.below(5) {
+        if d.ratio(2, 5) {
+            gparams.push(format!("const N{}: usize", k));
+        } else {
+            let nm = format!("T{}", k);
+            gparams.push(format!("{}{}", nm, *d.pick(&["", ": Clone", ": 'static + Copy"])));
+            type_names.push(nm);
+        }
+    }
+    let g = if gparams.is_empty() { String::new() } else { format!("<{}>", gparams.join(", ")) };
     let src = if as_enum {
-        format!("enum E<'a, T> {{ V{} }}", body)
+        format!("enum E{} {{ V{} }}", g, body)
     } else {
         match style {
-            "named" => format!("struct S<'a, T> {}", body),
-            "tuple" => format!("struct S<'a, T>{};", body),
-            _ => "struct S;".to_string(),
+            "named" => format!("struct S{} {}", g, body),
+            "tuple" => format!("struct S{}{};", g, body),
+            _ => format!("struct S{};", g),
         }
     };
     ctx.set_render(json!(src));
@@ -55,6 +71,31 @@ pub fn check_bytes(ctx: &Ctx, bytes: &Vec<u8>) -> Result<(), Fail> {
         Ok(x) => x,
         Err(e) => fail!("c16t:harness-render", "`{}`: {}", src, e),
     };
+    // the mirrored generics: every parameter in order, and `type_params()` reads back exactly the type parameters, in
+    // order, wherever the const parameters stand
+    {
+        use darling_core::ast::{GenericParam, GenericParamExt, Generics};
+        use darling_core::FromGenerics;
+        let mirrored: Generics<GenericParam<syn::TypeParam>> = match FromGenerics::from_generics(&di.generics) {
+            Ok(x) => x,
+            Err(e) => fail!("c16t:generics-rejected", "`{}`: ast::Generics::from_generics failed: {}", src, e),
+        };
+        ensure!(mirrored.params.len() == di.generics.params.len(), "c16t:generics-params", "`{}`: {} mirrored parameters for {}", src, mirrored.params.len(), di.generics.params.len());
+        let read: Vec<String> = mirrored.type_params().map(|t| t.ident.to_string()).collect();
+        ensure!(read == type_names, "c16t:type_params", "`{}`: ast::Generics::type_params() yields {:?}, the type parameters are {:?}", src, read, type_names);
+        let as_syn: Generics<syn::GenericParam> = match FromGenerics::from_generics(&di.generics) {
+            Ok(x) => x,
+            Err(e) => fail!("c16t:generics-rejected", "`{}`: ast::Generics<syn::GenericParam>::from_generics failed: {}", src, e),
+        };
+        let read: Vec<String> = as_syn.type_params().map(|t| t.ident.to_string()).collect();
+        ensure!(read == type_names, "c16t:type_params", "`{}`: ast::Generics<syn::GenericParam>::type_params() yields {:?}, the type parameters are {:?}", src, read, type_names);
+        for p in &mirrored.params {
+            let _ = p.as_type_param();
+        }
+        if type_names.len() >= 2 && gparams.len() > type_names.len() {
+            ctx.class("generics:mixed-kinds");
+        }
+    }
     let fields: &syn::Fields = match &di.data {
         syn::Data::Struct(s) => &s.fields,
         syn::Data::Enum(e) => &e.variants[0].fields,
@@ -108,7 +149,7 @@ pub fn check_bytes(ctx: &Ctx, bytes: &Vec<u8>) -> Result<(), Fail> {
 
 pub fn run(args: &Args) -> bool {
     let ctx = Ctx::new("C16", "fields-print", vmodel::ev::mix_seed(args.seed, "C16", "fields-print", args.shard), args);
-    ctx.set_rule("struct and variant bodies of every style with 0..6 fields (attributes incl. doc comments and unparseable bodies, every visibility form, 10 type shapes, optional trailing comma) -> ast::Fields<syn::Field>::try_from: same style, one entry per field in order, to_tokens equals the original fields up to a trailing comma; ast::Data::try_from keeps the kind. Non-trivial: >=2 fields");
+    ctx.set_rule("struct and variant bodies of every style with 0..6 fields (attributes incl. doc comments and unparseable bodies, every visibility form, 10 type shapes, optional trailing comma) -> ast::Fields<syn::Field>::try_from: same style, one entry per field in order, to_tokens equals the original fields up to a trailing comma; ast::Data::try_from keeps the kind; the item's generics (0-2 lifetimes, 0-4 type and const parameters in any order) mirrored as ast::Generics: every parameter in order, type_params() yields exactly the type parameters in order. Non-trivial: >=2 fields");
     let ok = if let Some(path) = &args.replay {
         let (_, case) = vmodel::ev::load_replay_case(path);
         let b: Vec<u8> = serde_json::from_value(case).expect("bad replay");
